@@ -709,26 +709,50 @@ class T1:
                     if fid_req := (req.get(f.id) or creq.get(f.id)):
                         how = "inherited by callers (wrapper / flag parameter): %s" % (fid_req,)
                     res.ok({"site": "%s -> %s" % (f.id, callee), "need": sorted(need - BASE), "how": how})
+        # requirements that reach an undischargeable function (pub and not a confirmed wrapper, or never
+        # called) are violations; they are reported once, at the ORIGIN: the function whose own call site
+        # lacks the guard (not at every function the requirement bubbles through).
+        escaping = {}
         for fid, need in sorted(req.items()):
             f = P.fns[fid]
             callers = rcg.get(fid, set()) - {fid}
-            is_wrapper = fid in wrappers
             if f.kind == "closure":
                 continue
-            if is_wrapper:
+            if fid in wrappers:
                 res.note("confirmed safe wrapper %s requires %s from its callers" % (fid, sorted(need)))
                 continue
-            if f.tf:
-                # a featured fn requiring more than it declares: its callers must establish; fine if private and has callers
-                pass
             if f.pub or not callers:
-                site = self.first_unguarded_site(f, need)
-                res.bad(
-                    "T1:%s:%s" % (fid, "+".join(sorted(need))),
-                    "function %s reaches a call requiring target features %s without a dominating runtime detection (%s); "
-                    "it is %s, so no caller can discharge it" % (fid, sorted(need), site, "pub and not a confirmed wrapper" if f.pub else "never called in-crate"),
-                    f.loc(),
-                )
+                escaping[fid] = need
+        origins = {}
+        for fid, need in escaping.items():
+            # walk down to the functions whose requirement is not inherited from a callee's requirement
+            st = [fid]
+            seen = set()
+            while st:
+                g = st.pop()
+                if g in seen:
+                    continue
+                seen.add(g)
+                gf = P.fns[g]
+                inherited = False
+                for c in gf.calls:
+                    for i in P._resolve_id(c):
+                        if i in req and i not in wrappers and (req[i] & need) and not (set(P.fns[i].tf) & need):
+                            st.append(i)
+                            inherited = True
+                if not inherited:
+                    origins.setdefault(g, (set(), set()))
+                    origins[g][0].update(need)
+                    origins[g][1].add(fid)
+        for g, (need, tops) in sorted(origins.items()):
+            gf = P.fns[g]
+            site = self.first_unguarded_site(gf, need)
+            res.bad(
+                "T1:%s:%s" % (g, "+".join(sorted(need))),
+                "function %s makes a call requiring target features %s without a dominating runtime detection (%s); the requirement escapes through %s, "
+                "which no caller can discharge" % (g, sorted(need), site, sorted(tops)[:4]),
+                gf.loc(),
+            )
         for fid, need in closure_viol:
             f = P.fns[fid]
             res.bad(
